@@ -20,6 +20,22 @@ def ref_func(model: Model, like: FuncInfo, src: str) -> FuncInfo:
     return FuncInfo(like.module, like.cls, node)
 
 
+def align_params(f: FuncInfo, rf: FuncInfo) -> Dict[str, object]:
+    """Bindings for the reference's parameters: parameters whose name also occurs in the code's signature are bound by
+    name; the remaining ones, in order, to the code's remaining parameters.  A consistent renaming of a private helper's
+    parameters is therefore silent, while a permutation of equally named parameters is still seen."""
+    from ..vn import sym
+    cp = [p for p in f.params + f.kwonly]
+    rp = [p for p in rf.params + rf.kwonly]
+    if len(cp) != len(rp):
+        return {}
+    rest_c = [p for p in cp if p not in rp]
+    rest_r = [p for p in rp if p not in cp]
+    if len(rest_c) != len(rest_r):
+        return {}
+    return {r: sym(c) for r, c in zip(rest_r, rest_c)}
+
+
 def drop_raises(paths):
     return [(c, v) for c, v in paths if not isinstance(v, Raise)]
 
@@ -40,7 +56,7 @@ def formula_check(res, model: Model, qual: str, ref_src: str, what: str, opaque:
             ev2.attr_alias = dict(aliases)
         sc = model.cls(selfcls) if selfcls else f.cls
         p1 = ev1._function_paths_ctx(f, {}, None, 0, sc)
-        p2 = ev2._function_paths_ctx(rf, {}, None, 0, sc)
+        p2 = ev2._function_paths_ctx(rf, align_params(f, rf), None, 0, sc)
     except Unreadable as e:
         raise AnalysisError(f"{res.prop}: {qual} is outside the evaluator's language ({e}); formula clause '{what}' "
                             f"cannot be decided")
@@ -81,7 +97,10 @@ def _norm_effect(e, ignore_kinds, ignore_calls, ordered=False, store_fields=None
         for conds, fx, r in e[2]:
             effs = [x for x in (_norm_effect(y, ignore_kinds, ignore_calls, ordered, store_fields) for y in fx) if x is not None]
             es = tuple(repr(x) for x in effs)
-            inner.append((tuple(sorted(map(repr, conds))), es if ordered else tuple(sorted(es)), r))
+            inner.append((frozenset(conds), (es if ordered else tuple(sorted(es)), r)))
+        # after dropping ignored effects, rows that no longer differ merge over complementary guards
+        from ..vn import _merge_rows
+        inner = [(tuple(sorted(map(repr, c))), p[0], p[1]) for c, p in _merge_rows(inner)]
         return ("foreach", e[1], tuple(sorted(inner, key=repr)))
     return e
 
@@ -116,7 +135,7 @@ def effects_check(res, model: Model, qual: str, ref_src: str, what: str, effect_
             e1.attr_alias = dict(aliases)
             e2.attr_alias = dict(aliases)
         p1 = e1.effect_paths(f, effect_calls, sc)
-        p2 = e2.effect_paths(rf, effect_calls, sc)
+        p2 = e2.effect_paths(rf, effect_calls, sc, args=align_params(f, rf))
     except Unreadable as e:
         raise AnalysisError(f"{res.prop}: {qual} is outside the evaluator's language ({e}); ledger clause '{what}' "
                             f"cannot be decided")
